@@ -208,6 +208,13 @@ RetOK(op, a, exp, obs) ==
 \* and that fails exactly when the operation fails.  R is the transition of the fronted operation.
 CliObj(x, o) == [x EXCEPT !.pol = 0, !.al = o.al,
                           !.len = IF x.k = "align" THEN (IF Len(x.rows) = 0 THEN -1 ELSE Len(x.rows[1].s)) ELSE x.len]
+\* `goalign split`: the partition file is read against the alignment's own length, every site must belong to a partition
+\* (CheckSites), and one file per partition is written
+CliSplit(o, a) ==
+  LET part == PartitionOf(o.len, a.ranges) IN
+  IF part.err \/ (\E i \in 1..o.len : part.vec[i] = -1) THEN Fail(o)
+  ELSE LET R == SplitOp(o, o.len, part) IN
+       IF R.err THEN Fail(o) ELSE Res(FALSE, o, [k \in 1..Len(R.new) |-> CliObj(R.new[k], o)], NoRet, TRUE)
 \* commands that print numbers (tables of counts, majority characters, ...): nothing is read back, the printed values
 \* are the return record of the query
 CliQueryOps == {"CharStats", "CharStatsSeq", "CountProfile", "ProfileOnly", "MaxCharStats", "AvgAllelesPerSite"}
@@ -221,7 +228,7 @@ CliOps == {"RemoveGapSites", "RemoveCharacterSites", "RemoveMajorityCharacterSit
            "Deduplicate", "Compress", "Mask", "MaskOccurences", "MaskUnique", "SubAlign", "Replace",
            "ShuffleSequences", "Swap", "Recombine", "Mutate", "AddGaps", "Sample", "SampleSeqBag", "RandSubAlign",
            "Rename", "RenameRegexp", "CleanNames", "TrimNames", "TrimNamesAuto", "AppendSeqIdentifier", "TrimSequences",
-           "Unalign", "Transpose", "RefCoordinates"} \cup CliQueryOps
+           "Unalign", "Transpose", "RefCoordinates", "Split"} \cup CliQueryOps
 \* relations that need the part of the return record the command writes to a side file
 CliNeedsRet == {"Compress", "CleanNames", "TrimNames", "TrimNamesAuto"}
 
